@@ -176,6 +176,9 @@ def climate_worker(job):
         else:
             got = {t: c for t, c in one.get_signature()}
             want = {tuple(t): c for t, c in sig1d}
+            sig_d = attempt(lambda: models.Climate1D.get_1d_signature({t: c for t, c in x.get_signature()}, lats))
+            if isinstance(sig_d, Rejected) or {tuple(t): c for t, c in sig_d} != want:
+                problems.append(("signature", "get_1d_signature gives %s for the dict form of the signature and %s for the tuple form" % (sig_d, sorted(want.items())), None))
             if got != want:
                 problems.append(("signature", "get_1d_signature says %s but to1d produces %s" % (sorted(want.items()), sorted(got.items())), None))
             if one.D != 1:
@@ -236,10 +239,22 @@ def mw_worker(job):
         def __call__(self, a, *r):
             return a
 
-    wrapper = models.ModelWrapper(D, Ident(), out_keys, True, False)
-    res = attempt(lambda: wrapper(x, None))
-    cfg = dict(D=D, order=[list(t) for t in order])
+    seen_aux = []
+
+    class IdentAux(object):
+        def __call__(self, a, aux):
+            seen_aux.append(aux)
+            return a, ("aux-out", aux)
+
+    cfg = dict(D=D, order=[list(t) for t in order], pass_aux_data=bool(nl_batch))
     problems = []
+    out_flags = (True, False, True)[:D]
+    if nl_batch:
+        wrapper = models.ModelWrapper(D, IdentAux(), out_keys, out_flags, True)
+        res = attempt(lambda: wrapper(x, "aux-in"))
+    else:
+        wrapper = models.ModelWrapper(D, Ident(), out_keys, out_flags, False)
+        res = attempt(lambda: wrapper(x, "aux-in"))
     if isinstance(res, Rejected):
         problems.append(("rejected", "ModelWrapper rejected: %s" % res.exc, None))
     else:
@@ -248,6 +263,12 @@ def mw_worker(job):
             if t not in out or not same_elems(out[t], xb[t]):
                 problems.append(("roundtrip", "ModelWrapper around the identity does not restore block %s" % tname(t), None))
                 break
+        if is_multi(out) and (out.D != D or tuple(out.is_torus) != out_flags or [k for k in out.keys()] != order):
+            problems.append(("meta", "ModelWrapper output has D=%r is_torus=%r types %s; expected D=%d is_torus=%r types %s" % (out.D, out.is_torus, list(out.keys()), D, out_flags, order), None))
+        if nl_batch and (seen_aux != ["aux-in"] or res[1] != ("aux-out", "aux-in")):
+            problems.append(("aux", "with pass_aux_data the inner model saw aux %r and the wrapper returned %r" % (seen_aux, res[1]), None))
+        if not nl_batch and res[1] != "aux-in":
+            problems.append(("aux", "without pass_aux_data the wrapper returned aux %r instead of the one it was given" % (res[1],), None))
     return dict(cfg=cfg, problems=problems)
 
 
@@ -314,7 +335,7 @@ def run(ctx):
         q = {"roundtrip": "Climate1D.to1d", "signature": "Climate1D.get_1d_signature", "lonflip": "Climate1D.to1d", "equator": "Climate1D.__call__"}[cfg["check"]]
         for kind, what, site in r["problems"]:
             by.setdefault((q, kind), []).append((what, site, cfg))
-    mj = [(ctx.repo, D, order, 0) for D in (2, 3) for order in ([(0, 0)], [(1, 0), (0, 0)], [(2, 0), (0, 1), (1, 1)])]
+    mj = [(ctx.repo, D, order, aux) for D in (2, 3) for order in ([(0, 0)], [(1, 0), (0, 0)], [(2, 0), (0, 1), (1, 1)]) for aux in (0, 1)]
     for job, r in ctx.pairs(mw_worker, mj):
         cfg = r["cfg"]
         ev.obligation("modelwrapper", not r["problems"], tuple(str(v) for v in cfg.values()), sample=None)
